@@ -172,7 +172,7 @@ func Run(cfg fw.Config, rec *fw.Rec) {
 	}
 	// random combinations
 	r := cfg.Rng("c08", 0)
-	for i := cfg.Pick(3000, 40000); i > 0; i-- {
+	for i := cfg.Pick(3000, 400000); i > 0; i-- {
 		j := job{setting: r.Intn(3)}
 		for p := 0; p < 3; p++ {
 			f := failures[r.Intn(len(failures))]
